@@ -943,7 +943,8 @@ func runScript(tr *vio.Trace, line []byte, n int, dir string) error {
 			why = "timeout"
 		}
 		if !got {
-			tr.EmitRaw(map[string]any{"e": "new", "h": n, "mode": "seq", "store": []any{}, "note": "child produced no events"})
+			abs := map[string]any{"k": "abs", "c": []int{0, 0, 0}}
+			tr.EmitRaw(map[string]any{"e": "new", "h": n, "mode": "seq", "store": []any{abs, abs, abs, abs, abs}, "note": "child produced no events"})
 		}
 		tr.EmitRaw(map[string]any{"e": "died", "h": n, "why": why, "stderr": string(trunc([]byte(errText), 3000))})
 	}
